@@ -65,6 +65,9 @@ def main():
             rc, out = run_demo()
             meta["demo_on_pristine"] = {"rc": rc, "tail": out[-400:]}
         rc, out = sh(["git", "apply", os.path.abspath(os.path.join(src, "patch.diff"))], cwd=wt)
+        if rc != 0:      # written against an earlier HEAD (before a later hook commit): try a three-way merge
+            rc, out = sh(["git", "apply", "-3", os.path.abspath(os.path.join(src, "patch.diff"))], cwd=wt)
+            meta["applied_three_way"] = rc == 0
         meta["patch_applies"] = rc == 0
         if rc != 0:
             meta["apply_output"] = out[-800:]
